@@ -73,6 +73,13 @@ def concat(a, b):
     for s in b.segs:
         if segs and segs[-1].kind == "C" and s.kind == "C":
             segs[-1] = Seg("C", tuple(segs[-1].a) + tuple(s.a))
+        elif segs and segs[-1].kind == "A" and s.kind == "A" and _is_slice(segs[-1].a) and _is_slice(s.a) \
+                and segs[-1].a.arg(0).eq(s.a.arg(0)) and simp(segs[-1].a.arg(2)).eq(simp(s.a.arg(1))):
+            # x[a:b] + x[b:c] = x[a:c]
+            x, y = segs[-1], s
+            ln = simp(zint(x.length()) + zint(y.length())) if not (is_conc(x.length()) and is_conc(y.length())) \
+                else x.length() + y.length()
+            segs[-1] = slice_seg(x.a.arg(0), x.a.arg(1), y.a.arg(2), ln)
         else:
             segs.append(s)
     pt = a.pytype
@@ -128,7 +135,23 @@ def subseg(st, seg, s, e):
             return Seg("C", tuple(seg.a.to_bytes(n, "big")[s:e]))
     if k == "R":
         return Seg("R", seg.a, simp(zint(e) - zint(s)))
-    return Seg("A", smt.sslice(seg_term(st, seg), zint(s), zint(e)), simp(zint(e) - zint(s)))
+    if k == "A" and _is_slice(seg.a):
+        # slice of a slice: one slice of the underlying term (every sslice term built by this module is in range)
+        base, a0 = seg.a.arg(0), seg.a.arg(1)
+        return slice_seg(base, simp(a0 + zint(s)), simp(a0 + zint(e)), simp(zint(e) - zint(s)))
+    return slice_seg(seg_term(st, seg), zint(s), zint(e), simp(zint(e) - zint(s)))
+
+
+def _is_slice(t):
+    return z3.is_app(t) and t.decl().name() == "sslice" and t.num_args() == 3
+
+
+def slice_seg(base, lo, hi, length):
+    lo, hi = simp(lo), simp(hi)
+    whole = smt.slen(base)
+    if is_conc(lo) and lo == 0 and not is_conc(hi) and simp(hi).eq(simp(whole)):
+        return Seg("A", base, length)
+    return Seg("A", smt.sslice(base, zint(lo), zint(hi)), length)
 
 
 def flatten(st, v):
